@@ -172,6 +172,7 @@ class Engine:
         self._keep = []
         self._solver = None
         self._static_cache = {}
+        self.assumptions_uf = []    # contract axioms of the uninterpreted applications met on this path
         from . import inject as _inj
         _inj.UF.reset()
         for nm in [n for n in self.vars if n.startswith("uf!")]:
@@ -186,6 +187,8 @@ class Engine:
                 s.add(a)
             for c in self.pc:
                 s.add(c)
+            for a in self.assumptions_uf:
+                s.add(a)
             self._nassumed = len(self.assumptions)
             self._solver = s
         elif self._nassumed < len(self.assumptions):
@@ -334,6 +337,8 @@ class Engine:
             s.add(a)
         for c in self.pc:
             s.add(c)
+        for a in self.assumptions_uf:
+            s.add(a)
         for c in extra:
             s.add(bz(c))
         if prefer_dyadic:
